@@ -16,6 +16,11 @@ REWRITES = [
   # the tower together with an override that already spells out one of its own two entries: both readings of the property agree
   ('tower_ovfloat', 'BeartypeConf(is_pep484_tower=True, hint_overrides=FrozenDict({float: Union[float, int]}))', [(r'\bfloat\b', 'Union[float, int]'), (r'\bcomplex\b', 'Union[complex, float, int]')]),
   ('tower_ovcomplex', 'BeartypeConf(is_pep484_tower=True, hint_overrides=FrozenDict({complex: Union[complex, float, int]}))', [(r'\bfloat\b', 'Union[float, int]'), (r'\bcomplex\b', 'Union[complex, float, int]')]),
+  # several overrides at once: one simultaneous pass ("each occurrence of A replaced by B": a replacement is not rewritten again)
+  ('ov_chain', 'BeartypeConf(hint_overrides=FrozenDict({L0: L1, L1: str}))', [(r'\bL0\b', 'L1'), (r'\bL1\b', 'str')]),
+  ('ov_swap', 'BeartypeConf(hint_overrides=FrozenDict({L0: L1, L1: L0}))', [(r'\bL0\b', 'L1'), (r'\bL1\b', 'L0')]),
+  # an override whose key is the bare origin class of subscripted hints: only the bare class is an occurrence of the key
+  ('ov_origin', 'BeartypeConf(hint_overrides=FrozenDict({list: tuple}))', [(r'\blist\b(?!\[)', 'tuple')]),
   # overriding a hint by itself rewrites nothing
   ('ov_self', 'BeartypeConf(hint_overrides=FrozenDict({L0: L0, list[str]: list[str]}))', []),
   ('viol_type', 'BeartypeConf(violation_type=ValueError)', []),
@@ -32,7 +37,7 @@ def tasks(tier, seed):
     NSX = shapes.NS
     from beartype import FrozenDict
     NSX['FrozenDict'] = FrozenDict
-    leaves = ['float', 'complex', 'L0', 'NT', 'list[str]', 'int', 'L1', 'str']
+    leaves = ['float', 'complex', 'L0', 'NT', 'list[str]', 'int', 'L1', 'str', 'list']
     base = list(leaves)
     for f in shapes.UNARY:
         if 'GL[' in f or 'GS[' in f: continue
